@@ -54,7 +54,7 @@ package config
 
 // min-time / max-time: the field must be a duration and the tag parameter a parsable duration; anything else fails validation.
 //@ func getTimeForValidation
-//@ props C17
+//@ props C17 C01 C02
 //@ modifies nothing
 //@ ensures [unparsable-parameter-fails] imp(result_of(time.ParseDuration, 1) != nil, !ok)
 //@ ensures [only-durations] iff(ok, result_of(time.ParseDuration, 1) == nil && typeis(v, time.Duration))
@@ -62,14 +62,14 @@ package config
 //@ at call time.ParseDuration assert arg(a0) == param0
 
 //@ func MinTimeValidation
-//@ props C17
+//@ props C17 C01 C02
 //@ nilsafe
 //@ requires fl != nil
 //@ ensures [at-least-the-bound] result == (result_of(getTimeForValidation, 2) && result_of(getTimeForValidation, 1) <= result_of(getTimeForValidation, 0))
 //@ at call getTimeForValidation assert [field-value-against-the-tag-parameter] arg(v) == result_of(fl.Field().Interface, 0) && arg(param) == result_of(fl.Param, 0)
 
 //@ func MaxTimeValidation
-//@ props C17
+//@ props C17 C01
 //@ nilsafe
 //@ requires fl != nil
 //@ ensures [at-most-the-bound] result == (result_of(getTimeForValidation, 2) && result_of(getTimeForValidation, 0) <= result_of(getTimeForValidation, 1))
